@@ -6,6 +6,7 @@ CHECKS = {
     'C04': ('vlib.chk_incr', 'C04'),
     'C05': ('vlib.chk_conf', 'C05'),
     'C15': ('vlib.chk_rat', 'C15'),
+    'C16': ('vlib.chk_lit', 'C16'),
 }
 
 
